@@ -131,19 +131,19 @@ def same(c, obj):
     return bool(c == obj and dict(c) == dict(obj))
 
 
-def loop_of(T):
-    """a fresh dictionary of type T that contains itself"""
+def loop_of(T, via_list=False):
+    """a fresh dictionary of type T that contains itself, directly or through a list"""
     loop = T()
-    loop[list(T.entry_objs.keys())[0]] = loop
+    loop[list(T.entry_objs.keys())[0]] = [0, loop] if via_list else loop
     return loop
 
 
-def concrete(v, obj, T, direct):
+def concrete(v, obj, T, direct, via_list=False):
     """the real value of abstract value v: Ref is the dictionary under test itself (in-place operations, `direct`)
     or a companion dictionary that contains itself"""
     if v != REF:
         return v
-    return obj if direct else loop_of(T)
+    return obj if direct else loop_of(T, via_list)
 
 
 def mentions(o, key):
@@ -171,7 +171,7 @@ def exec_case(arg):
         exc = None
         v = o.get("v")
         if v == REF:
-            v = concrete(v, obj, T, direct=(not op.startswith("construct")) and (len(hist) + steps) % 2 == 0)
+            v = concrete(v, obj, T, direct=(not op.startswith("construct")) and (len(hist) + steps) % 2 == 0, via_list=(len(hist) + steps) % 4 == 1)
         try:
             if op == "construct_fd":
                 obj = T(other_fd(T, [(km[k], v) for k in o["ks"]]))
@@ -295,7 +295,7 @@ def record_case(arg):
             # a value that is a dictionary reachable from itself: the object under test (in-place operations) or a
             # companion that contains itself; recorded as TREF
             o["v"] = TREF
-            v = obj if (not op.startswith("construct")) and rnd.random() < 0.5 else loop_of(T)
+            v = obj if (not op.startswith("construct")) and rnd.random() < 0.5 else loop_of(T, rnd.random() < 0.4)
         if op in ("setitem", "setdefault"):
             o["k"] = rnd.choice(pool)
         elif op not in ("copy", "pickle"):
